@@ -370,12 +370,12 @@ package lexer
 //@   before call (*sync.Map).Store#1: assert typeis(value, *regexp.Regexp) && value.(*regexp.Regexp) != nil && uf("re_anchored", "Bool", value.(*regexp.Regexp)) && value.(*regexp.Regexp) == re
 //@   allow-kind typeassert "the cache holds only *regexp.Regexp values: the one Store site stores one (asserted there)"
 
-//@ func (ActionPop).applyAction [C07 C03 C04]
+//@ func (ActionPop).applyAction [C07 C03 C04 C06]
 //@   frame-tags C09
 //@   implements Action.applyAction
 //@   ensures result == nil ==> len(lexer.stack) == len(old(lexer.stack)) - 1 && &lexer.stack[0] == &old(lexer.stack)[0]
 
-//@ func (ActionPush).applyAction [C07 C03 C04]
+//@ func (ActionPush).applyAction [C07 C03 C04 C06]
 //@   frame-tags C09
 //@   implements Action.applyAction
 //@   ensures result == nil ==> len(lexer.stack) == len(old(lexer.stack)) + 1 && lexer.stack[len(lexer.stack)-1].name == p.State
